@@ -337,7 +337,8 @@ Qed.
 (* ---- <history> *)
 Lemma cl_history p h : In p (subtrees t) -> In h (t_kids p) -> is_hist_kind (t_kind h) = true ->
   exists x l, t_trans h = [x] /\ tt_targets x = Some l /\ tt_cond x = None /\ tt_event x = None /\
-              forall s, In s l -> In s (if is_deep_kind (t_kind h) then vsids_below p else vsids_kids p).
+              (forall s, In s l -> In s (if is_deep_kind (t_kind h) then vsids_below p else vsids_kids p)) /\
+              (forall s, In s l -> In s (psids_below p)).
 Proof.
   intros Hp Hh Hk. destruct (pos_of p Hp) as (pp & ap & HAp). destruct (In_nth_error _ _ Hh) as [j Hj].
   pose proof (At_kid t pp ap p j h HAp Hj) as HAh.
@@ -358,19 +359,25 @@ Proof.
   destruct (tt_targets x) as [l|] eqn:El'; [|discriminate]. cbn [option_map] in Wt.
   exists x, l. split; [exact Ex|]. split; [exact El'|].
   split; [destruct (tt_cond x); [discriminate | reflexivity]|]. split; [destruct (tt_event x); [discriminate | reflexivity]|].
-  intros s Hs. unfold targets_resolve_in in Wt. rewrite forallb_forall in Wt. specialize (Wt (sname s) (in_map sname _ _ Hs)).
-  destruct (resolve d (sname s)) as [y|] eqn:Hy; [|discriminate].
-  destruct (resolve_sid s y Hy) as (w & HAw & _ & _ & Hv & <-).
-  assert (Hdeep : ga_deep (g_attrs (e_node he)) = is_deep_kind (t_kind h)).
-  { unfold he, el_at. cbn [e_node]. rewrite G_attrs. reflexivity. }
-  unfold e_attrs in Wt. fold he in Wt. rewrite Hdeep in Wt. unfold he, el_at in Wt. cbn [e_path parent_path] in Wt.
-  destruct (is_deep_kind (t_kind h)).
-  - apply is_desc_spec in Wt as (q & Hq & Ep). rewrite Ep in HAw.
-    destruct (At_below t pp ap p HAp _ _ _ HAw) as [[E _]|[_ Hin]]; [congruence|].
-    unfold vsids_below. apply in_map. apply filter_In. split; assumption.
-  - destruct (e_path y) as [|a py] eqn:Epy; cbn [parent_path optptr_eqb] in Wt; [discriminate|].
-    apply ptr_eqb_eq in Wt. subst py. destruct (At_kid_inv t pp ap p a _ w HAp HAw) as (j' & _ & Hj' & _).
-    unfold vsids_kids. apply in_map. apply filter_In. split; [eapply nth_error_In; exact Hj' | exact Hv].
+  assert (Hboth : forall s, In s l -> In s (if is_deep_kind (t_kind h) then vsids_below p else vsids_kids p) /\ In s (psids_below p)).
+  { intros s Hs. unfold targets_resolve_in in Wt. rewrite forallb_forall in Wt. specialize (Wt (sname s) (in_map sname _ _ Hs)).
+    destruct (resolve d (sname s)) as [y|] eqn:Hy; [|discriminate].
+    destruct (resolve_sid s y Hy) as (w & HAw & En & _ & Hv & <-).
+    apply andb_true_iff in Wt as [Wp Wt]. apply negb_true_iff in Wp. unfold e_tag in Wp. rewrite En, G_tag in Wp.
+    assert (Pw : tprop w = true) by (unfold tprop, is_proper_kind; destruct (t_kind w); try discriminate; reflexivity).
+    assert (Hdeep : ga_deep (g_attrs (e_node he)) = is_deep_kind (t_kind h)).
+    { unfold he, el_at. cbn [e_node]. rewrite G_attrs. reflexivity. }
+    unfold e_attrs in Wt. fold he in Wt. rewrite Hdeep in Wt. unfold he, el_at in Wt. cbn [e_path parent_path] in Wt.
+    destruct (is_deep_kind (t_kind h)).
+    - apply is_desc_spec in Wt as (q & Hq & Ep). rewrite Ep in HAw.
+      destruct (At_below t pp ap p HAp _ _ _ HAw) as [[E _]|[_ Hin]]; [congruence|].
+      split; [unfold vsids_below | unfold psids_below]; apply in_map; apply filter_In; split; assumption.
+    - destruct (e_path y) as [|a py] eqn:Epy; cbn [parent_path optptr_eqb] in Wt; [discriminate|].
+      apply ptr_eqb_eq in Wt. subst py. destruct (At_kid_inv t pp ap p a _ w HAp HAw) as (j' & _ & Hj' & _).
+      apply nth_error_In in Hj'. split.
+      + unfold vsids_kids. apply in_map. apply filter_In. split; [exact Hj' | exact Hv].
+      + unfold psids_below. apply in_map. apply filter_In. split; [now apply tbelow_kid | exact Pw]. }
+  split; intros s Hs; now apply Hboth.
 Qed.
 
 Theorem wf_chart_tree : VTree t.
